@@ -9,17 +9,47 @@ NA = {
     "C01": "the sampled law of a floating-point rejection sampler is a measure-theoretic/numerical fact; no sound static argument in reach bounds a Kolmogorov distance; its shape-visible clauses are decided under C03/C04/C07 (DESIGN.md 5/C01)",
     "C02": "the sampled pmf (BTPE/H2PE squeeze constants, float recurrences) is numerical; not decidable from code shape (DESIGN.md 5/C02)",
     "C10": "proportional sampling and never-zero-weight depend on the numeric descent over runtime weights; its shape-visible clauses (error return, child index maps) are decided under C09 (DESIGN.md 5/C10)",
-    "C12": "norm = 1 and uniformity are algebraic/numeric facts about the transforms, not shape-of-code facts; the NaN/singularity clause is decided under C03 (DESIGN.md 5/C12)",
-    "C13": "pushing all 2^24 inputs through sample() is execution by definition; outside the static-analysis family (DESIGN.md 5/C13)",
 }
 PENDING = "check under construction in this session (see DESIGN.md 10 build order)"
 
 CHECKS = {
+    "C12": dict(
+        category="other",
+        text="The algebraic clauses of the four unit-geometry samplers x f32/f64, decided symbolically from terms extracted from the MIR (one symbol per "
+             "RNG draw site): (G1) the proposal is k fresh draws per iteration from Uniform::new(-1, 1); (G2) the single exit of the rejection loop is "
+             "taken exactly when x1^2+..+xk^2 < 1 (<= 1); (G3) the returned array is the documented map — the accepted point, von Neumann's, "
+             "Marsaglia's — up to the symmetries of the proposal, and |result|^2 is identically 1 (circle, sphere) resp. the tested squared norm "
+             "(disc, ball). These are the premises of the classical uniformity proofs and hold for every stream, which no sample of streams shows.",
+        design_ref="DESIGN.md 5/C12 and 11.6",
+        note="NOT decided: the rounding error of the norm ('a few ulp'), NaN at the singular proposal x = 0 (decided under C03), and the theorems that "
+             "turn G1-G3 into uniformity (trusted, cited). A law-preserving rewrite outside the symmetry group checked (e.g. a rotation by a fixed angle) "
+             "would be reported as a different map although the law is unchanged — stated as a limit; none is known in the history of the crate.",
+        technique="symbolic term extraction from rustc MIR (value numbering, per-site draw symbols) + computer-algebra identities (sympy); CFG rule for the rejection loop and its exit",
+        engine="rdx+E4+sympy",
+    ),
+    "C13": dict(
+        category="other",
+        text="Necessary clauses of the single-draw law, decided symbolically for Cauchy, Pareto, Weibull, Gumbel, Frechet and Triangular x f32/f64: "
+             "sample() has no loop and exactly one RNG draw site, and the value it returns — a term over that draw u and the constructor's "
+             "arguments obtained by value numbering over the MIR, with the constructor's field expressions substituted — is identical over the "
+             "reals to the documented quantile function Q(u), its mirror Q(1-u) or (Cauchy) tan(pi u); Triangular's branch test and both pieces "
+             "are checked; parameter fast paths are checked under their own equations. A transform that is not the quantile function moves the "
+             "law by far more than the 2^-24 resolution bound for every parameter value, which no finite grid of parameters can establish.",
+        design_ref="DESIGN.md 5/C13 and 11.6",
+        note="NOT decided: the resolution bound itself (rounding of the f32 evaluation over the 2^24 inputs) — that enumeration is execution and is not "
+             "attempted; support membership of every output is under C03. A sampler that stops being single-draw is outside C13 by the property's own "
+             "text and is reported as not decided. Equality verdicts rest on sympy's simplifier; an alarm additionally needs the difference to every "
+             "accepted form to be non-zero at an exact rational point (40-digit evaluation of the extracted term, not of the program).",
+        technique="symbolic term extraction from rustc MIR (value numbering) + computer-algebra identity check against the documented quantile functions; CFG rule for the single draw",
+        engine="rdx+E4+sympy",
+    ),
     "C08": dict(
         category="other",
         text="The validation clause of WeightedAliasIndex::new decided by abstract interpretation for every extracted weight type on homogeneous "
-             "vectors of lengths 0/1/3/7 and every weight cell incl. the exact boundary MAX/len, MAX, +inf, -0: InvalidInput / InvalidWeight / "
-             "InsufficientNonZero exactly as documented, otherwise none of them. Each case is an interval of weights, not a sample.",
+             "vectors of lengths 0/1/3/7/300 and every weight cell incl. the exact boundary MAX/len, MAX, +inf, -0: InvalidInput / InvalidWeight / "
+             "InsufficientNonZero exactly as documented, otherwise none of them; position-sensitive vectors (one valid head followed by invalid weights and "
+             "vice versa); every AliasableWeight::sum implementation (and pairwise_sum) returns exactly n on the all-ones vector of exact length n "
+             "(n = 0..69, 100, 127..129, 255..257, 300, 1000) — a necessary condition of 'weight_sum is the sum of all weights'. Each case is an interval of weights, not a sample.",
         design_ref="DESIGN.md 5/C08",
         note="Only the validation clause is claimed. NOT decided: exactness of the alias table for integer weights, weights() reconstruction, "
              "sampling frequencies, zero-weight indices never returned (numerical / data-structure invariants), panic freedom of the table "
@@ -33,10 +63,11 @@ CHECKS = {
              "incl. the 0.1 boundary; length algebra with exact lengths by trace-partitioned abstract interpretation (sample_len = n in both "
              "representations, sample() returns n components, buffer assertion and last index discharged); the suffix-sum recurrence's index "
              "offsets by symbolic index terms (the defect class 'correct length, correct sum, wrong Beta parameter' that means cannot see); "
-             "sample() = one sample_to_slice on a sample_len() buffer.",
+             "sample() = one sample_to_slice on a sample_len() buffer; every loop that walks the output buffer in a sample_to_slice impl is left only on "
+             "iterator exhaustion (every slot written); FromGamma's normaliser is accumulated in the writing loop or comes from a helper that is exact on all-ones vectors.",
         design_ref="DESIGN.md 5/C11",
         note="NOT decided: components in [0,1], sum to 1 within ulps, Beta marginals, NaN rates (numerical; the single-draw NaN/inf clause of the "
-             "Gamma/Beta sub-samplers is under C03). Lengths are checked for n in {2,3,6}; the index-offset rule is for all n.",
+             "Gamma/Beta sub-samplers is under C03). Lengths are checked for n in {2,3,6,17,64}; the index-offset rule is for all n.",
         technique="abstract interpretation with trace partitioning on exact lengths + symbolic (linear) index-term extraction on rustc MIR",
         engine="rdx+E2+E4",
     ),
@@ -193,7 +224,8 @@ def main():
              "rustc_private driver (RUSTC_WORKSPACE_WRAPPER): monomorphic instance walk with resolved callees, full MIR of crate-local "
              "instances, names-only call graph of dependency MIR, items, statics (const-evaluated), expanded-AST attributes"},
             {"name": "analysis", "path": "analysis/", "serves_properties": sorted(CHECKS), "kind_free_text":
-             "Python (stdlib) analyzers over the fact base: fact rules (E1), MIR abstract interpreter (E2), unit typing (E3), CFG/path rules (E4)"},
+             "Python (stdlib) analyzers over the fact base: fact rules (E1), MIR abstract interpreter (E2), unit typing (E3), CFG/path rules (E4); "
+             "C13 additionally calls sympy (tooling interpreter python3-vt) on terms extracted from the MIR"},
         ],
         "checks": checks,
         "not_applicable": na,
